@@ -7,6 +7,9 @@ Alpha(a) == CASE a = "markup" -> {"<", ">", "/", "!", "-", "=", "\"", "'", " ", 
               [] a = "small"  -> {"<", ">", "/", "a", "!"}
               [] a = "raw"    -> {"<", ">", "/", "x", "m", "p", "!", "-", " ", "="}
               [] a = "script" -> {"<", ">", "/", "s", "c", "r", "i", "p", "t", "-", "!"}
+              \* an alphabet of FRAGMENTS: raw-text elements, partial end tags, escapes of script data, and characters of 2, 3 and 4 bytes
+              \* (~e~ ~z~ ~g~: the harness substitutes them; their lead bytes are 0xC3, 0xE4, 0xF0), NUL (~0~)
+              [] a = "frag"   -> {"<script>", "</script>", "</", "</scr", "<!--", "-->", "<b", "<title>", ">", "x", " ", "~e~", "~z~", "~g~", "~0~"}
 \* all strings up to MaxLen over the chosen alphabet (one definition only: TLC evaluates constant definitions eagerly)
 InputsDef == Strs(MaxLen, Alpha(AlphaName))
 \* inputs only (no exploration of the abstract machine): used to print the inputs to replay
